@@ -600,3 +600,27 @@ def rule_uncapped_sentinel(ck, repo, R):
         ok = isinstance(v, ast.Constant) and isinstance(v.value, int) and v.value >= 10 ** 6 and len(consts) == 1
         ck.decide(ok, R, f'{name}:cap', src(v), f'{name}: number_bit_pairs=0 ("count every repeat") is replaced by `{src(v)}`; a fragment class can occur more often than any '
                                                f'structure-derived bound (paths, not atoms), and the sibling functions use {sorted(consts)}', file=m.relpath, line=line, func=name)
+
+
+def rule_closure_id_scope(ck, repo, R):
+    """C02: in Smiles._smiles the running ring-closure id keys two tables: `tokens` (per component) and `casted_cycles` (id -> printed digit, together with the heap of
+    free digits it lives for the whole call). Ids must therefore be unique over the whole call: the counter is initialised where casted_cycles is"""
+    ck.rule(R, 'Smiles._smiles: the closure-id counter (`cycle`) and the id -> digit table (`casted_cycles`) are initialised in the same statement list (same lifetime); '
+               'a counter restarted per component re-uses ids that are still keys of the table')
+    f = repo.func('chython.algorithms.smiles:Smiles._smiles')
+    from .astutil import enclosing_map
+    pm = enclosing_map(f.node)
+
+    def init_block(name):
+        outs = []
+        for a in ast.walk(f.node):
+            if isinstance(a, ast.Assign) and any(isinstance(t, ast.Name) and t.id == name for t in a.targets) and isinstance(a.value, (ast.Constant, ast.Dict)):
+                outs.append(pm.get(a))
+        return outs
+    c, t = init_block('cycle'), init_block('casted_cycles')
+    if len(c) != 1 or len(t) != 1:
+        raise AnalysisError(f'Smiles._smiles: initialisation of cycle / casted_cycles not recognised ({len(c)}, {len(t)})')
+    ck.decide(c[0] is t[0], R, 'same-lifetime', None,
+              'Smiles._smiles: `cycle` is (re)initialised inside ' + ('a loop' if isinstance(c[0], (ast.For, ast.While)) else 'another block') +
+              ' while `casted_cycles` lives for the whole call: in a later component an opening closure gets an id that is still in the table and is taken for a closing one '
+              '(two open rings share a digit)', file=f.file, line=f.lineno, func=f.qualname)
